@@ -173,7 +173,7 @@ class Fail(Exception):
     pass
 
 
-def run_program(HH, probe, prog, tmpdir, preds=(), collect=True):
+def run_program(HH, probe, prog, tmpdir, preds=(), collect=True, silent=False):
     """Runs prog on the real implementation.  Returns (concrete_ops, trace, failure or None, stats).
     preds: subset of {"C03", "C04", "C13"} — property predicates evaluated after every operation."""
     import numpy as np  # noqa
@@ -290,6 +290,8 @@ def run_program(HH, probe, prog, tmpdir, preds=(), collect=True):
             ops_out.append(op)
             if collect:
                 trace.append(observe(hh, d, w, L, res))
+            if silent:
+                continue      # nothing is read off the sketch between the operations (observe() reads attributes only)
 
             # ------------------------------------------------ property predicates (independent bookkeeping)
             T = truth[i]
@@ -600,6 +602,24 @@ def run_suite(ctx, flavor, n_random, n_coq, extra_programs=(), extra_coq_every=1
                                "impl_trace_last": {k: (str(v) if k == "tab" else v) for k, v in (t2[-1] if t2 else {}).items()},
                                "truth": [{repr(k): v for k, v in t.items()} for t in i2["truth"]]},
                               f2 or failure)
+            return
+        # The same program once more with NOTHING read between its operations (the pass above evaluates hh[key] for every
+        # key after every operation): a history is a history whether or not somebody looked in between, so tables,
+        # counters, cache and every answer of the program's own query/get operations must be the same.
+        try:
+            ops_s, trace_s, _, _ = run_program(HH, probe, prog, tmpdir, (), silent=True)
+        except Exception as e:
+            ops_s, trace_s = ops, [{"raised": repr(e)}]
+        if trace_s != trace:
+            nviol += 1
+            if nviol <= 3:
+                at = next((n for n, (a, b) in enumerate(zip(trace, trace_s)) if a != b), min(len(trace), len(trace_s)))
+                ctx.violation({"program": jsonable(prog, ops), "first_differing_operation": at,
+                               "mode": "operations applied back to back, nothing read between them",
+                               "with_reads_between": {k: str(v) for k, v in (trace[at] if at < len(trace) else {}).items()},
+                               "without": {k: str(v) for k, v in (trace_s[at] if at < len(trace_s) else {}).items()}},
+                              "%s: tables / counters / answers after the same operations differ when hh[key] is not read "
+                              "between them (hidden state: this is not the state of this history)" % flavor)
             return
         if to_coq:
             coq_cases.append(cq_case(prog, ops, trace, info, probe))
